@@ -165,6 +165,8 @@ pub enum UserReq {
     WriteDeadBands(Vec<(u16, u16)>),
     LinkStatus,
     EmptyResponse(u8),
+    /// READ with several headers: (kind 0 all | 1 range8 | 2 range16 | 3 count8 | 4 count16, group, variation, a, b)
+    ReadHeaders(Vec<(u8, u8, u8, u16, u16)>),
 }
 
 pub struct MasterSim {
@@ -396,6 +398,28 @@ impl MasterSim {
                 UserReq::WarmRestart => format!("{:?}", h.warm_restart().await),
                 UserReq::WriteDeadBands(v) => format!("{:?}", h.write_dead_bands(vec![DeadBandHeader::group34_var1_u16(v)]).await),
                 UserReq::LinkStatus => format!("{:?}", h.check_link_status().await),
+                UserReq::ReadHeaders(hs) => {
+                    let mut v = vec![];
+                    let mut bad = false;
+                    for (k, g, var, a, b) in hs {
+                        let Some(variation) = Variation::lookup(g, var) else {
+                            bad = true;
+                            break;
+                        };
+                        v.push(match k {
+                            0 => ReadHeader::all_objects(variation),
+                            1 => ReadHeader::one_byte_range(variation, a as u8, b as u8),
+                            2 => ReadHeader::two_byte_range(variation, a, b),
+                            3 => ReadHeader::one_byte_limited_count(variation, a as u8),
+                            _ => ReadHeader::two_byte_limited_count(variation, a),
+                        });
+                    }
+                    if bad {
+                        "Err(bad variation)".into()
+                    } else {
+                        format!("{:?}", h.read(ReadRequest::multiple_headers(&v)).await)
+                    }
+                }
                 UserReq::EmptyResponse(f) => match FunctionCode::from(f) {
                     Some(fc) => format!("{:?}", h.send_and_expect_empty_response(fc, Headers::new()).await),
                     None => "Err(bad function)".into(),
